@@ -187,7 +187,7 @@ def apply_fault(sess, a):
         return p
 
     def run(ast, data=None, gradient=True, hessian=False):
-        fb = FaultBuilder(eb.beta_specs(), pool=sess.pool, share_elementary=True)
+        fb = FaultBuilder(dict(sess.builder.beta_specs), pool=sess.pool, share_elementary=True)
         # faulty formulas share the session's Beta / Variable objects (collateral damage must not happen)
         fb.betas = sess.builder.betas
         fb.vars = sess.builder.vars
@@ -249,6 +249,22 @@ def apply_fault(sess, a):
         avs = {'1': ['var', 'av1'], '2': ['var', 'av2'], '4': ['var', 'av3']}
         ok, engine, e = expect_error(sess, f'availability keys inconsistent with the utilities, via {entry}',
                                      lambda: run(plant(base, path, ['loglogit', utils, avs, ['var', 'ch']])), survey=survey)
+    elif kind == 'empty_avail':
+        utils = {'1': ['beta', 'b0'], '2': ['var', 'c0'], '3': ['beta', 'b1']}
+        ok, engine, e = expect_error(sess, f'empty availability dictionary for three utilities, in {where}',
+                                     lambda: run(plant(base, path, ['loglogit', utils, {}, ['var', 'ch']])))
+    elif kind == 'bad_avail_keys_kept':
+        # the numbering is prepared first (prepare()), the faulty formula is then evaluated with prepare_ids=False
+        utils = {'1': ['beta', 'b0'], '2': ['var', 'c0'], '3': ['beta', 'b1']}
+        avs = {'1': ['var', 'av1'], '2': ['var', 'av2'], '4': ['var', 'av3']}
+
+        def f():
+            fb = FaultBuilder(eb.beta_specs(), pool=sess.pool, share_elementary=False)
+            e_ = fb.build(plant(base, path, ['loglogit', utils, avs, ['var', 'ch']]))
+            d_ = db.Database('one', sess.dbs[dbi].data.iloc[[salt % len(sess.dbs[dbi].data)]].reset_index(drop=True))
+            e_.prepare(d_, 10)
+            return e_.get_value_c(database=d_, aggregation=True, prepare_ids=False)
+        ok, engine, e = expect_error(sess, f'availability keys inconsistent with the utilities, numbering kept, in {where}', f)
     elif kind == 'nan_inplace':
         # a table that was valid when the Database was created, then a NaN written into it in place
         t = sess.tables[dbi].copy()
@@ -449,7 +465,7 @@ def missing(sess, kind, fi, dbi, salt, entry):
     import biogeme.database as db
     from biogeme.parameters import Parameters
     code = float(sess.cfg['missing'])
-    betas = dict(eb.BETA_VALUES)
+    betas = {**eb.BETA_VALUES, **getattr(sess, 'fixed_now', {})}
     rows = sess.rows_for(dbi)
     ast = sess.formulas[fi]
     if sess.valid_at(fi, betas, dbi) is None:
